@@ -605,6 +605,7 @@ class Gen:
                 opts.append(("for", 3 * c.mutation + 0.3))
             if c.matches:
                 opts.append(("matchstmt", 1.5 * c.mutation))
+            opts.append(("blockstmt", 0.6 * c.mutation))
         k = self.wpick(opts)
         return getattr(self, "s_" + k)(d)
 
@@ -709,6 +710,17 @@ class Gen:
         return Assign(n, t, accs, e, op)
 
     def unit_block(self, d):
+        outer = [nm for nm in self.scopes[-1] if nm != "_" and nm not in self.no_shadow]
+        if outer and self.chance(0.12):
+            # a block whose ONLY statement is a binding that shadows a variable of the directly enclosing block
+            # (a dead binding; it must not leak out of the block)
+            self.scopes.append({})
+            nm = self.pick(outer)
+            ty = self.rand_type(1)
+            e = self.expr(ty, min(d, 1))
+            st = LetMut(nm, e) if self.chance(0.5) else Let(PVar(nm), e)
+            self.scopes.pop()
+            return Block([st], None)
         self.scopes.append({})
         n = self.rng.randint(1, 2)
         stmts = [s for s in (self.stmt(d) for _ in range(n)) if s is not None]
@@ -716,6 +728,10 @@ class Gen:
         stmts.append(self.s_assign(d) if self.vars_of(lambda t, m: m) else self.s_let(d))
         self.scopes.pop()
         return Block(stmts, None)
+
+    def s_blockstmt(self, d):
+        """a bare nested block used as a statement"""
+        return ExprStmt(self.unit_block(d - 1 if d > 0 else 0))
 
     def s_ifstmt(self, d):
         if d <= 0:
